@@ -11,6 +11,10 @@ package translate
 //@   tags C13, C10
 //@   returns (out, err)
 //@   ensures[C13] strictset: (t.strict && plainSet(v)) ==> err != nil
+// Number case: an integer is emitted only when the number is integral AND that integer is the number (fits the Go int
+// it is returned as: no wrapped / saturated / truncated integer); every other number is emitted as the same float64.
+//@   ensures[C13] numint: (v is rel.Number && err == nil && out is int) ==> (i2f(out.(int)) == v.(rel.Number) && out.(int) == f2i(v.(rel.Number)) && -9223372036854775808 <= f2i(v.(rel.Number)) && f2i(v.(rel.Number)) <= 9223372036854775807)
+//@   ensures[C13] numkind: (v is rel.Number && err == nil) ==> (out is int || (out is float64 && same(out.(float64), v.(rel.Number))))
 //@   ensures[C13] other: (!(v is rel.Set) && !(v is rel.Number) && !(v is *rel.GenericTuple) && !(v is *rel.EmptySet)) ==> err != nil
 
 //@ func (Translator).objFromArraiDict(t; v)
@@ -24,3 +28,17 @@ package translate
 //@ func (Translator).arrFromArrai(t; s)
 //@   tags C13, C10
 //@   returns (out, err)
+
+// ---- ToArrai (translate/to_arrai.go): kind preservation of the scalar cases ---------------------------------------
+// A JSON/YAML number becomes the same arr.ai number (float64: bit-identical; int: its float64 conversion), a boolean
+// becomes true/false (non-strict), and none of the scalar cases can fail.
+// not claimed: the string case (NewString's contract does not expose the kind/content in a form usable here), the
+// tagged strict forms (rel.NewTuple is trusted with `result != nil` only), objects/arrays (recursive; enumerating a Go
+// map), the default branch (rel.NewValue).
+//@ func (Translator).ToArrai(t; data)
+//@   tags C13, C10
+//@   returns (v, err)
+//@   ensures[C13] float: data is float64 ==> (err == nil && v is rel.Number && same(v.(rel.Number), data.(float64)))
+//@   ensures[C13] int: data is int ==> (err == nil && v is rel.Number && same(v.(rel.Number), i2f(data.(int))))
+//@   ensures[C13] bool: (data is bool && !t.strict) ==> (err == nil && (data.(bool) ? v is rel.TrueSet : v is rel.EmptySet))
+//@   ensures[C13] scalar: (data is bool || data == nil || (data is string && t.strict)) ==> (err == nil && v != nil)
